@@ -500,7 +500,10 @@ func init() {
 		"time.AfterFunc": func(e *Exec, t *Thread, a []Value, g bool) (Value, bool) {
 			tm := e.newTimer(e.toInt(a[0], types.Typ[types.Int64]))
 			tm.Fn = a[1].(*Closure)
-			return done(Ptr{})
+			tt := e.World.Pkgs["time"].Type("Timer").Type()
+			o := e.newObj(tt, e.zero(tt))
+			e.tickers[o] = tm
+			return done(Ptr{Obj: o})
 		},
 
 		"time.Date": func(e *Exec, t *Thread, a []Value, g bool) (Value, bool) {
